@@ -183,6 +183,21 @@ func (ex *Exec) specEval(sc *specCtx, e ast.Expr) (Val, bool) {
 				}
 			}
 		}
+		if id, ok := e.X.(*ast.Ident); ok {
+			if o := ex.specSRVar(sc, id.Name); o != nil {
+				st := structOf(o.Type())
+				for i := 0; i < st.NumFields(); i++ {
+					if st.Field(i).Name() == e.Sel.Name {
+						t := sc.st.env[ex.srKey(o, st.Field(i))]
+						if t == nil {
+							ex.specErr(sc, "field %s.%s has no value in this state", id.Name, e.Sel.Name)
+							return Val{ex.fresh("unk", sortOf(st.Field(i).Type())), st.Field(i).Type()}, false
+						}
+						return Val{t, st.Field(i).Type()}, true
+					}
+				}
+			}
+		}
 		x, _ := ex.specEval(sc, e.X)
 		return ex.specField(sc, x, e.Sel.Name)
 	case *ast.IndexExpr:
@@ -303,8 +318,31 @@ func (ex *Exec) specIdent(sc *specCtx, e *ast.Ident) (Val, bool) {
 	return Val{I(0), typInt}, false
 }
 
+// specSRVar resolves a name to a scalar-replaced local struct variable visible at the spec position.
+func (ex *Exec) specSRVar(sc *specCtx, name string) *types.Var {
+	if _, ok := sc.vars[name]; ok {
+		return nil
+	}
+	if sc.pos == token.NoPos {
+		return nil
+	}
+	scope := ex.pkg.Types.Scope().Innermost(sc.pos)
+	if scope == nil {
+		return nil
+	}
+	_, obj := scope.LookupParent(name, sc.pos)
+	v, ok := obj.(*types.Var)
+	if !ok || !ex.isSR(v) {
+		return nil
+	}
+	return v
+}
+
 func (ex *Exec) specLoadVar(sc *specCtx, v *types.Var) (Val, bool) {
 	key := ex.keyOf(v)
+	if ex.isSR(v) {
+		return Val{ex.srAssemble(sc.st, v), v.Type()}, true
+	}
 	if ex.boxed[v] {
 		ref := sc.st.env[key]
 		if ref == nil {
@@ -516,6 +554,19 @@ func (ex *Exec) specCall(sc *specCtx, e *ast.CallExpr) (Val, bool) {
 		bv := fmt.Sprintf("%s_%d", id.Name, sc.depth)
 		inner := sc.bind(id.Name, Val{Const(bv, SInt), typInt})
 		var body *T
+		var pats []*T
+		// optional trailing trig(e1, e2, ...) argument: an explicit multi-pattern
+		if n := len(e.Args); n >= 3 {
+			if tc, ok := e.Args[n-1].(*ast.CallExpr); ok {
+				if tid, ok := tc.Fun.(*ast.Ident); ok && tid.Name == "trig" {
+					for _, ta := range tc.Args {
+						tv, _ := ex.specEval(inner, ta)
+						pats = append(pats, tv.T)
+					}
+					e = &ast.CallExpr{Fun: e.Fun, Args: e.Args[:n-1]}
+				}
+			}
+		}
 		if len(e.Args) == 4 {
 			lo, _ := ex.specEval(inner, e.Args[1])
 			hi, _ := ex.specEval(inner, e.Args[2])
@@ -532,6 +583,9 @@ func (ex *Exec) specCall(sc *specCtx, e *ast.CallExpr) (Val, bool) {
 		}
 		sc.depth--
 		if fname == "forall" {
+			if len(pats) > 0 {
+				return Val{ForallMulti([]string{bv}, body, pats), typBool}, true
+			}
 			return Val{Forall([]string{bv}, body), typBool}, true
 		}
 		return Val{Exists([]string{bv}, body), typBool}, true
@@ -703,7 +757,7 @@ func (ex *Exec) specPure(sc *specCtx, pd *PureDef, e *ast.CallExpr) (Val, bool) 
 		ex.declare(name, sorts, sortOf(rt))
 		if pd.Rec {
 			// definitional axiom
-			inner := &specCtx{ex: ex, st: sc.st, vars: map[string]Val{}, stateVars: map[string]stateVar{}, pkg: pk, depth: 100, where: pd.Line}
+			inner := &specCtx{ex: ex, st: sc.st, vars: map[string]Val{}, stateVars: map[string]stateVar{}, pkg: pk, depth: 20, where: pd.Line}
 			var bvs []string
 			var bts []*T
 			for i, n := range pd.ParamName {
